@@ -5,3 +5,4 @@ pub mod hist;
 pub mod kernel;
 pub mod panics;
 pub mod props;
+pub mod sched;
